@@ -40,40 +40,46 @@ def _sync_lock():
         shutil.copyfile(src, dst)
 
 
-def binary_path(layer):
+def binary_path(layer, bin="probe"):
     if layer == "rel":
-        return os.path.join(TARGET, "release", "probe")
+        return os.path.join(TARGET, "release", bin)
     if layer == "dbg":
-        return os.path.join(TARGET, "dbg", "probe")
+        return os.path.join(TARGET, "dbg", bin)
     if layer == "asan":
-        return os.path.join(TARGET, "asan", "x86_64-unknown-linux-gnu", "release", "probe")
+        return os.path.join(TARGET, "asan", "x86_64-unknown-linux-gnu", "release", bin)
     raise BuildError("unknown layer " + layer)
 
 
-def _cmd(layer):
+def _cmd(layer, bin="probe"):
+    sel = ["--bin", bin] + (["--features", "api"] if bin == "probe-api" else [])
     if layer == "rel":
-        return ["cargo", "build", "--release", "--offline"], {}
+        return ["cargo", "build", "--release", "--offline"] + sel, {}
     if layer == "dbg":
-        return ["cargo", "build", "--profile", "dbg", "--offline"], {}
+        return ["cargo", "build", "--profile", "dbg", "--offline"] + sel, {}
     if layer == "asan":
         return (["cargo", "+nightly", "build", "--release", "--offline",
                  "--target", "x86_64-unknown-linux-gnu",
-                 "--target-dir", os.path.join(TARGET, "asan")],
+                 "--target-dir", os.path.join(TARGET, "asan")] + sel,
                 {"RUSTFLAGS": "-Zsanitizer=address -Cforce-frame-pointers=yes"})
     raise BuildError("unknown layer " + layer)
 
 
-def ensure(layer, quiet=True):
-    """(Re)build the layer from the current /repo tree; incremental. Returns the binary path."""
-    if layer in _built:
-        return _built[layer]
+def ensure(layer, quiet=True, bin="probe"):
+    """(Re)build the layer from the current /repo tree; incremental. Returns the binary path.
+    A layer name may carry the binary: "rel:api" = the probe-api binary of the rel layer."""
+    if ":" in layer:
+        layer, which = layer.split(":", 1)
+        bin = "probe-api" if which == "api" else which
+    key = (layer, bin)
+    if key in _built:
+        return _built[key]
     os.makedirs(TARGET, exist_ok=True)
     lock_path = os.path.join(TARGET, ".verif-build.lock")
     with open(lock_path, "w") as lf:
         fcntl.flock(lf, fcntl.LOCK_EX)
         try:
             _sync_lock()
-            cmd, extra = _cmd(layer)
+            cmd, extra = _cmd(layer, bin)
             env = _env()
             env.update(extra)
             t0 = time.time()
@@ -84,13 +90,13 @@ def ensure(layer, quiet=True):
                 sys.stderr.write(out[-6000:])
                 raise BuildError("build of layer %s failed (exit %d)" % (layer, p.returncode))
             if not quiet:
-                sys.stderr.write("[build] layer %s ok in %.1fs\n" % (layer, time.time() - t0))
+                sys.stderr.write("[build] layer %s (%s) ok in %.1fs\n" % (layer, bin, time.time() - t0))
         finally:
             fcntl.flock(lf, fcntl.LOCK_UN)
-    path = binary_path(layer)
+    path = binary_path(layer, bin)
     if not os.path.exists(path):
         raise BuildError("binary missing after build: " + path)
-    _built[layer] = path
+    _built[key] = path
     return path
 
 
